@@ -2,12 +2,12 @@ import corr_construct
 import oracle_tree
 
 SPEC = {
-    "statement": "attitude / data_quality / facility_1_4 / volume_directory / trailer / leader: on the layouts regenerated from /repo, a successful parse of each "
+    "statement": "trailer_images / trailer_samples (read_sar_trailer decodes image i from the bytes between the running sums of the declared record lengths, any number of images, each sample at its row-major position); attitude / data_quality / facility_1_4 / volume_directory / trailer / leader: on the layouts regenerated from /repo, a successful parse of each "
                  "variable record consumes exactly the declared bytes for EVERY count and length (success forces 16+120n<=L, n<=16, 66<=L, k<=7); the leader ends at the sum of the declared lengths",
     "rule": "correspondence: construct parse vs the Lean layout interpreter on all seven record layouts (well-formed from the independent encoder with random counts/lengths, "
             "truncated, flipped, blanked); oracle: every attitude count 1..136 (thorough; quick samples incl. 1,135,136), every channel count 1..16 x map projection 0/1, facility lengths from 66, "
             "file-pointer counts 0..11, trailer images 0..7, each compared field by field after the variable record; distinct = distinct count/length combination",
-    "partial": "read_sar_trailer slices the low-resolution images from offset 720 itself (the struct consumes 694 bytes): checked by the oracle, modelled only at the layout level",
+    "partial": "numpy frombuffer/reshape of the trailer images and the meaning of construct classes are contracts (tied by the trailer / layout correspondences)",
     "assumptions": [],
 }
 
@@ -16,12 +16,17 @@ def corr_layouts(seed, tier):
     return corr_construct.check(seed, tier)
 
 
+def corr_trailer(seed, tier):
+    import corr_trailer as ct
+    return ct.check(seed, tier)
+
+
 def oracle_c05(seed, tier):
     return oracle_tree.check_c05(seed, tier)
 
 
 def checks(tier):
-    return [corr_layouts, oracle_c05]
+    return [corr_layouts, corr_trailer, oracle_c05]
 
 
 def replay(payload):
